@@ -1,0 +1,5 @@
+//go:build !verif
+
+package client
+
+func verifPoint(point string) {}
